@@ -21,7 +21,7 @@ from . import d_util as U
 PROP = 'C18'
 LEAN_MODULES = ['Femio.Props.C18']
 THEOREMS = ['C18_pos_correct', 'C18_pyr_table', 'C18_poly_closed', 'C18_poly_own_nodes', 'C18_poly_outward_volume',
-            'C18_poly_kernels', 'C18_degeneracy', 'C18_degeneracy_untouched', 'C18_positive', 'C18_pyr_counterexample']
+            'C18_poly_kernels', 'C18_degeneracy', 'C18_degeneracy_untouched', 'C18_positive', 'C18_permute_table', 'C18_pyr_counterexample']
 PARTIAL = [
     'C18_poly_outward_volume: volumes are the centroid-fan kernels (exact for planar faces; for warped quadrilaterals '
     'the polyhedron "linear" kernel and the hex / prism / pyr "linear" kernels triangulate differently and are not '
@@ -172,7 +172,41 @@ def poly_case(ctx, m, tally):
         ctx.count('poly:type:' + t, len(m['blocks'][t]))
     if ctx.driver is not None:
         poly_correspond(ctx, m, obs, case, tally)
+    n0 = len(ctx.failures)
     poly_oracle(ctx, m, obs, case)
+    if len(ctx.failures) > n0 and ctx.failures[-1]['observed'] and 'element' in ctx.failures[-1]['observed']:
+        small = shrink_poly(m, ctx.failures[-1]['observed']['element'], ctx.failures[-1]['signature'])
+        if small is not None:
+            ctx.failures[-1].update(small)
+
+
+class _Collect:
+    def __init__(self):
+        self.failures = []
+
+    def fail(self, signature, what, case, observed=None):
+        self.failures.append({'signature': signature, 'what': what, 'case': case, 'observed': observed})
+
+    def count(self, *a, **k):
+        pass
+
+
+def shrink_poly(m, eid, signature):
+    """smallest sub-mesh on which the same failure class is still observed: the element alone with its own nodes
+    (relative storage order kept), else the element alone with all nodes"""
+    t, c = next((t, c) for t, e, c in U.elem_list(m) if e == eid)
+    for keep_all in (False, True):
+        m2 = {'nodes': [(i, p) for i, p in m['nodes'] if keep_all or i in set(c)], 'blocks': {t: [(eid, list(c))]},
+              'kind': m['kind'], 'order': m['order']}
+        col = _Collect()
+        try:
+            case = U.mesh_case(m2, op='to_polyhedron', shrunk_from=G.describe(m))
+            poly_oracle(col, m2, poly_real(m2), case)
+        except Exception:  # noqa
+            continue
+        if col.failures and col.failures[0]['signature'] == signature:
+            return col.failures[0]
+    return None
 
 
 # ------------------------------------------------------------------ (b) resolve_degeneracy
